@@ -1,7 +1,261 @@
-/- Model `Claims` (driver token `claims`) — stub, to be filled in. -/
-namespace Stab.Claims
+/-
+  Model `Claims` (driver token `claims`): mutual exclusion (`mutex_key`) and deferred choice (`deferred_choice_group`)
+  of sibling stages of ONE execution, as implemented by `StartStageHandler._start_if_ready`
+  (+ `conditions.py` fast paths), `AtomicTransaction.acquire_claim`, `_cancel_deferred_choice_siblings`,
+  `CancelStageHandler`, the jump re-arm (`reset_stage_for_retry`) and the retention sweep
+  `cleanup_completed_stage_claims`.
 
-/-- driver entry: the rest of the request line after the model token -/
-def drive (_rest : String) : String := "unimplemented"
+  * a stage = status + optional mutex key + optional choice group;
+  * `claims` = the `stage_claims` table of this execution: claim key ↦ owner stage;
+  * the read-then-check fast paths (`_is_mutex_blocked`, `_is_deferred_choice_claimed`) are separate, possibly STALE
+    reads: `peekM s` / `peekC s` record what the handler saw, `claim s` later acts on the recorded values and then runs
+    the claim transaction (acquire mutex claim with steal-if-owner-terminal, acquire choice claim without steal, CAS
+    NOT_STARTED → RUNNING; all or nothing);  `tryStart s` = the three in one atomic step (no stale read);
+  * `finish`, `cancel` (CancelStage), `park`/`unpark` (SUSPENDED / PAUSED), `reset` (jump re-arm: status back to
+    NOT_STARTED, the claim row is NOT touched — that is what the code does), `endWorkflow`
+    (`CompleteWorkflowHandler._determine_final_status`: the execution becomes terminal as soon as all stages are
+    continuable OR any stage is TERMINAL / CANCELED, even while other stages are live), `sweep`
+    (deletes every claim of the execution iff the EXECUTION is terminal), `cancelLosers` (deliver the pending CancelStages).
+
+  `fixSteal = true` mirrors proposed_fixes/F30.diff: a mutex claim whose owner is NOT_STARTED again (re-armed) can be stolen.
+-/
+import Stab.Model.Basic
+
+namespace Stab.Claims
+open Stab
+
+inductive Key where
+  | mutex (k : Nat)
+  | choice (g : Nat)
+  deriving DecidableEq, Repr
+
+structure Stage where
+  status : Status := .notStarted
+  mutex : Option Nat := none
+  group : Option Nat := none
+  deriving DecidableEq, Repr
+
+/-- RUNNING / SUSPENDED / PAUSED -/
+def live (s : Status) : Bool := s == .running || s == .suspended || s == .paused
+
+structure St where
+  fixSteal : Bool := false
+  stages : List Stage
+  claims : List (Key × Nat) := []
+  wfTerminal : Bool := false
+  peekM : List (Nat × Bool) := []      -- recorded result of `_is_mutex_blocked` per stage (latest first)
+  peekC : List (Nat × Bool) := []      -- recorded result of `_is_deferred_choice_claimed`
+  cancelQ : List Nat := []             -- pending CancelStage messages
+  started : List Nat := []             -- ghost: every committed NOT_STARTED → RUNNING, newest first
+  deriving Repr
+
+def getC (cs : List (Key × Nat)) (k : Key) : Option Nat :=
+  match cs with
+  | [] => none
+  | (k', v) :: rest => if k' = k then some v else getC rest k
+
+def setC (cs : List (Key × Nat)) (k : Key) (v : Nat) : List (Key × Nat) :=
+  match cs with
+  | [] => [(k, v)]
+  | (k', v') :: rest => if k' = k then (k, v) :: rest else (k', v') :: setC rest k v
+
+def getP (ps : List (Nat × Bool)) (i : Nat) : Option Bool :=
+  match ps with
+  | [] => none
+  | (j, b) :: rest => if j = i then some b else getP rest i
+
+def statusOf (s : St) (i : Nat) : Option Status := (s.stages[i]?).map (·.status)
+
+def setStatus (s : St) (i : Nat) (st : Status) : St :=
+  match s.stages[i]? with
+  | none => s
+  | some g => { s with stages := s.stages.set i { g with status := st } }
+
+/-- `_is_mutex_blocked`: another stage with the same key is RUNNING -/
+def mutexBlocked (s : St) (i : Nat) : Bool :=
+  match s.stages[i]? with
+  | none => false
+  | some g =>
+    match g.mutex with
+    | none => false
+    | some k => (List.range s.stages.length).any fun j =>
+        j != i && (match s.stages[j]? with | some h => h.mutex == some k && h.status == .running | none => false)
+
+/-- `_is_deferred_choice_claimed`: a sibling of the group is no longer NOT_STARTED -/
+def choiceClaimed (s : St) (i : Nat) : Bool :=
+  match s.stages[i]? with
+  | none => false
+  | some g =>
+    match g.group with
+    | none => false
+    | some c => (List.range s.stages.length).any fun j =>
+        j != i && (match s.stages[j]? with | some h => h.group == some c && h.status != .notStarted | none => false)
+
+/-- `acquire_claim` — returns the new claim table, or none when the claim is held by somebody else -/
+def acquire (s : St) (cs : List (Key × Nat)) (k : Key) (i : Nat) (steal : Bool) : Option (List (Key × Nat)) :=
+  match getC cs k with
+  | none => some (setC cs k i)
+  | some o =>
+    if o = i then some cs
+    else if steal then
+      match statusOf s o with
+      | none => some (setC cs k i)                                   -- owner row gone
+      | some st => if st.isComplete || (s.fixSteal && st == .notStarted) then some (setC cs k i) else none
+    else none
+
+inductive Out where
+  | started | requeued | cancelSelf | ignored | ok | noop
+  deriving DecidableEq, Repr
+
+def Out.name : Out → String
+  | .started => "started" | .requeued => "requeued" | .cancelSelf => "cancelSelf" | .ignored => "ignored"
+  | .ok => "ok" | .noop => "noop"
+
+inductive Op where
+  | peekM (i : Nat) | peekC (i : Nat) | claim (i : Nat) | tryStart (i : Nat)
+  | finish (i : Nat) (st : Status) | cancel (i : Nat) | park (i : Nat) (st : Status) | unpark (i : Nat)
+  | reset (i : Nat) | endWorkflow | sweep | cancelLosers
+  deriving DecidableEq, Repr
+
+/-- siblings of `i`'s group that are still NOT_STARTED (targets of `_cancel_deferred_choice_siblings`) -/
+def losers (s : St) (i : Nat) : List Nat :=
+  match s.stages[i]? with
+  | none => []
+  | some g =>
+    match g.group with
+    | none => []
+    | some c => (List.range s.stages.length).filter fun j =>
+        j != i && (match s.stages[j]? with | some h => h.group == some c && h.status == .notStarted | none => false)
+
+/-- `_start_if_ready` from the fast paths on, given what the fast paths saw -/
+def claimWith (s : St) (i : Nat) (mb cc : Bool) : St × Out :=
+  match s.stages[i]? with
+  | none => (s, .ignored)
+  | some g =>
+    if g.status ≠ .notStarted then (s, .ignored)
+    else if mb then (s, .requeued)
+    else if g.group.isSome && cc then ({ s with cancelQ := s.cancelQ ++ [i] }, .cancelSelf)
+    else
+      -- the claim transaction
+      let c1 := match g.mutex with
+        | none => some s.claims
+        | some k => acquire s s.claims (.mutex k) i true
+      match c1 with
+      | none => (s, .requeued)
+      | some cs1 =>
+        let c2 := match g.group with
+          | none => some cs1
+          | some c => acquire s cs1 (.choice c) i false
+        match c2 with
+        | none => ({ s with cancelQ := s.cancelQ ++ [i] }, .cancelSelf)     -- rolled back, CancelStage(self)
+        | some cs2 =>
+          let s' := { s with claims := cs2, stages := s.stages.set i { g with status := .running }, started := i :: s.started }
+          ({ s' with cancelQ := s'.cancelQ ++ losers s' i }, .started)
+
+/-- `CancelStageHandler`: anything not yet complete becomes CANCELED -/
+def cancelOne (s : St) (i : Nat) : St :=
+  match statusOf s i with
+  | none => s
+  | some st => if st.isComplete then s else setStatus s i .canceled
+
+def cancelAll (s : St) : List Nat → St
+  | [] => s
+  | i :: rest => cancelAll (cancelOne s i) rest
+
+def step (s : St) : Op → St × Out
+  | .peekM i => ({ s with peekM := (i, mutexBlocked s i) :: s.peekM }, .ok)
+  | .peekC i => ({ s with peekC := (i, choiceClaimed s i) :: s.peekC }, .ok)
+  | .claim i =>
+    claimWith s i ((getP s.peekM i).getD (mutexBlocked s i)) ((getP s.peekC i).getD (choiceClaimed s i))
+  | .tryStart i => claimWith s i (mutexBlocked s i) (choiceClaimed s i)
+  | .finish i st =>
+    if st.isComplete && statusOf s i == some .running then (setStatus s i st, .ok) else (s, .noop)
+  | .cancel i =>
+    match statusOf s i with
+    | none => (s, .noop)
+    | some st => (cancelOne s i, if st.isComplete then .ignored else .ok)
+  | .park i st =>
+    if (st == .suspended || st == .paused) && statusOf s i == some .running then (setStatus s i st, .ok) else (s, .noop)
+  | .unpark i =>
+    if statusOf s i == some .suspended || statusOf s i == some .paused then (setStatus s i .running, .ok) else (s, .noop)
+  | .reset i => (setStatus s i .notStarted, .ok)
+  | .endWorkflow =>
+    let sts := s.stages.map (·.status)
+    if sts.all Status.isContinuable || sts.contains .terminal || sts.contains .canceled
+    then ({ s with wfTerminal := true }, .ok) else (s, .noop)
+  | .sweep => if s.wfTerminal then ({ s with claims := [] }, .ok) else (s, .noop)
+  | .cancelLosers => ({ cancelAll s s.cancelQ with cancelQ := [] }, .ok)
+
+def run (s : St) (ops : List Op) : St := ops.foldl (fun acc o => (step acc o).1) s
+
+def runOut (s : St) : List Op → St × List Out
+  | [] => (s, [])
+  | o :: rest =>
+    let r := step s o
+    let r2 := runOut r.1 rest
+    (r2.1, r.2 :: r2.2)
+
+def init (fixSteal : Bool) (stages : List Stage) : St :=
+  { fixSteal := fixSteal, stages := stages.map fun g => { g with status := .notStarted } }
+
+/-! ### driver
+`claims fix=<0/1>;<stages: m<k> | g<c> | m<k>g<c> | - ,...>;<ops: PM<i> PC<i> C<i> T<i> F<i>:<STATUS> X<i> U<i>:<STATUS> V<i> R<i> E W K, `,`-separated>`
+answer: `<out>|<out>|... ; <status,...> ; <claims: m<k>><owner> g<c>><owner> sorted> ; wf=<0/1> ; q=<pending cancels>` -/
+
+def parseStage (t : String) : Option Stage :=
+  if t == "-" then some {} else
+  let (mpart, gpart) := match t.splitOn "g" with
+    | [m] => (m, "")
+    | [m, g] => (m, g)
+    | _ => ("?", "?")
+  let m? : Option (Option Nat) :=
+    if mpart == "" then some none else if mpart.startsWith "m" then (Parse.nat? (mpart.drop 1).toString).map some else none
+  let g? : Option (Option Nat) := if gpart == "" then some none else (Parse.nat? gpart).map some
+  match m?, g? with
+  | some m, some g => some { mutex := m, group := g }
+  | _, _ => none
+
+def parseOp (t : String) : Option Op :=
+  let num (s : String) : Option Nat := Parse.nat? s
+  if t == "E" then some .endWorkflow
+  else if t == "W" then some .sweep
+  else if t == "K" then some .cancelLosers
+  else if t.startsWith "PM" then (num (t.drop 2).toString).map .peekM
+  else if t.startsWith "PC" then (num (t.drop 2).toString).map .peekC
+  else if t.startsWith "C" then (num (t.drop 1).toString).map .claim
+  else if t.startsWith "T" then (num (t.drop 1).toString).map .tryStart
+  else if t.startsWith "X" then (num (t.drop 1).toString).map .cancel
+  else if t.startsWith "V" then (num (t.drop 1).toString).map .unpark
+  else if t.startsWith "R" then (num (t.drop 1).toString).map .reset
+  else if t.startsWith "F" then
+    match (t.drop 1).toString.splitOn ":" with
+    | [i, st] => do pure (.finish (← num i) (← Status.ofName? st))
+    | _ => none
+  else if t.startsWith "U" then
+    match (t.drop 1).toString.splitOn ":" with
+    | [i, st] => do pure (.park (← num i) (← Status.ofName? st))
+    | _ => none
+  else none
+
+def keyName : Key → String
+  | .mutex k => s!"m{k}"
+  | .choice g => s!"g{g}"
+
+def showSt (s : St) : String :=
+  let sts := Parse.joinWith "," (s.stages.map (·.status.name))
+  let cl := (s.claims.map fun (k, v) => s!"{keyName k}>{v}")
+  let cls := Parse.joinWith "," (cl.toArray.qsort (· < ·)).toList
+  s!"{sts} ; {if cls.isEmpty then "-" else cls} ; wf={if s.wfTerminal then 1 else 0} ; q={Parse.showNats s.cancelQ}"
+
+def drive (rest : String) : String :=
+  match rest.splitOn ";" with
+  | [f, stages, ops] =>
+    let fix? := if f == "fix=1" then some true else if f == "fix=0" then some false else none
+    match fix?, Parse.all? parseStage (Parse.splitNE stages ","), Parse.all? parseOp (Parse.splitNE ops ",") with
+    | some fix, some sts, some os =>
+      let r := runOut (init fix sts) os
+      s!"{Parse.joinWith "|" (r.2.map Out.name)} ; {showSt r.1}"
+    | _, _, _ => "bad-request"
+  | _ => "bad-request"
 
 end Stab.Claims
